@@ -32,24 +32,24 @@ package tengo
 
 // fields written only while their object is being constructed; calls with
 // unknown effects and callee frames therefore never change them
-//@ immutable SymbolTable.parent {C04,C11,C13}
-//@ immutable SymbolTable.block {C04,C11,C13}
-//@ immutable SymbolTable.store {C04,C11,C13}
+//@ immutable SymbolTable.parent {C11,C13}
+//@ immutable SymbolTable.block {C11,C13}
+//@ immutable SymbolTable.store {C11,C13}
 //@ immutable Symbol.Name {C11}
 //@ immutable Symbol.Scope {C11}
 //@ immutable Symbol.Index {C11}
-//@ immutable Compiler.file {C04,C13}
-//@ immutable Compiler.parent {C04,C13}
-//@ immutable Compiler.modules {C04,C13}
+//@ immutable Compiler.file {C13}
+//@ immutable Compiler.parent {C13}
+//@ immutable Compiler.modules {C13}
 //@ immutable Compiler.modulePath {C13}
-//@ immutable Compiler.trace {C04}
+//@ immutable Compiler.trace {C02}
 
 // structural invariants established by the only constructors
 // global slots are Go nil until the script (or the host) assigns them: readers must not assume a value
 //@ nilable Compiled.globals
 //@ nilable VM.globals
-//@ fieldinv SymbolTable.store has_store{C04,C11}: v != nil
-//@ fieldinv Compiler.trace tracing_off{C04,C02}: v == nil
+//@ fieldinv SymbolTable.store has_store{C11}: v != nil
+//@ fieldinv Compiler.trace tracing_off{C02}: v == nil
 //@ fieldinv Compiler.compiledModules has_cache{C13}: v != nil
 
 // shared constants are read-only while clones run concurrently (C08): the
@@ -168,6 +168,24 @@ package tengo
 // ---------------------------------------------------------------------------
 // Copy: an equal value sharing no mutable state (C10), frames for C09
 // ---------------------------------------------------------------------------
+
+// String of a container collects the elements' renderings in a slice of its own
+//@ func (*Array).String
+//@   props C08
+//@   assigns nothing
+//@   loop 0 invariant own_store: cap(elements) > 0 ==> fresh(elements)
+//@ func (*ImmutableArray).String
+//@   props C08
+//@   assigns nothing
+//@   loop 0 invariant own_store: cap(elements) > 0 ==> fresh(elements)
+//@ func (*Map).String
+//@   props C08
+//@   assigns nothing
+//@   loop 0 invariant own_store: cap(pairs) > 0 ==> fresh(pairs)
+//@ func (*ImmutableMap).String
+//@   props C08
+//@   assigns nothing
+//@   loop 0 invariant own_store: cap(pairs) > 0 ==> fresh(pairs)
 
 //@ func (*Array).Copy
 //@   props C10 C09 C15
@@ -770,7 +788,6 @@ package tengo
 
 // tracing writers are a debugging aid: the verified configurations pass nil
 //@ func NewCompiler
-//@   props C04
 //@   requires notrace: trace == nil
 //@   assigns typeof(SymbolTable), heapmap(map[string]*Symbol), heap(*Symbol)
 //@   ensures made{C13}: result != nil && fresh(result) && result.parent == nil && result.trace == trace
@@ -786,7 +803,6 @@ package tengo
 // ---------------------------------------------------------------------------
 
 //@ func (*Compiler).Compile
-//@   props C04
 //@   mode split-paths
 //@   requires cwf: c.file != nil && c.symbolTable != nil && c.modules != nil && 0 <= c.scopeIndex && c.scopeIndex == len(c.scopes) - 1
 //@                   && c.scopes[c.scopeIndex].SourceMap != nil
@@ -889,7 +905,6 @@ package tengo
 // the statement compilers keep the same bookkeeping as Compile
 
 //@ func (*Compiler).compileForStmt
-//@   props C04
 //@   mode assumed needs the loop-record invariant (break/continue patch lists); see DESIGN.md C02
 //@   requires cwf: c.file != nil && c.symbolTable != nil && c.modules != nil && 0 <= c.scopeIndex && c.scopeIndex == len(c.scopes) - 1
 //@                   && c.scopes[c.scopeIndex].SourceMap != nil
@@ -905,7 +920,6 @@ package tengo
 //@   ensures prefix{C02!}: result == nil ==> forall i in 0..len(ins0) :: c.scopes[c.scopeIndex].Instructions[i] == old(c.scopes[c.scopeIndex].Instructions[i])
 
 //@ func (*Compiler).compileForInStmt
-//@   props C04
 //@   mode assumed needs the loop-record invariant (break/continue patch lists); see DESIGN.md C02
 //@   requires cwf: c.file != nil && c.symbolTable != nil && c.modules != nil && 0 <= c.scopeIndex && c.scopeIndex == len(c.scopes) - 1
 //@                   && c.scopes[c.scopeIndex].SourceMap != nil
@@ -921,7 +935,6 @@ package tengo
 //@   ensures prefix{C02!}: result == nil ==> forall i in 0..len(ins0) :: c.scopes[c.scopeIndex].Instructions[i] == old(c.scopes[c.scopeIndex].Instructions[i])
 
 //@ func (*Compiler).compileLogical
-//@   props C04
 //@   requires node != nil
 //@   requires cwf: c.file != nil && c.symbolTable != nil && c.modules != nil && 0 <= c.scopeIndex && c.scopeIndex == len(c.scopes) - 1
 //@                   && c.scopes[c.scopeIndex].SourceMap != nil
@@ -940,7 +953,6 @@ package tengo
 //@   ensures prefix{C02!}: result == nil ==> forall i in 0..len(ins0) :: c.scopes[c.scopeIndex].Instructions[i] == old(c.scopes[c.scopeIndex].Instructions[i])
 
 //@ func (*Compiler).compileAssign
-//@   props C04
 // syntax trees come from the parser: an assignment has at least one operand on each side
 //@   assumes ast_shape: len(lhs) >= 1 && len(rhs) >= 1
 //@   requires cwf: c.file != nil && c.symbolTable != nil && c.modules != nil && 0 <= c.scopeIndex && c.scopeIndex == len(c.scopes) - 1
